@@ -153,6 +153,13 @@ def initAB (m : Nat) (seqlen : Array Int) (sample : List Sample) (n l localrank 
   let (a, rest) := initLeft seqlen n localrank sample 0 (Array.replicate m 0)
   ⟨a, initRight n rest (Array.replicate m (l : Int))⟩
 
+/-- the comparison of the `middle` loop: partition (after `fix: multisequence_partition breaks ties by
+sequence index`) compares in (value, sequence) order, selection plainly `comp(first[middle], *lmax)` -/
+def leftTest (lt : Int → Int → Bool) (r : Routine) (x : Int) (i : Nat) (lv : Int) (ls : Nat) : Bool :=
+  match r with
+  | .partition => lcomp lt (x, i) (lv, ls)
+  | .selection => lt x lv
+
 /-- the `middle` loop of one round: compare `first[(a+b)/2]` with `lmax` over the sequences `is`;
 `n` is the already halved value -/
 def classify (c : Ctx) (r : Routine) (seqlen : Array Int) (lmax : Option Sample) (n : Nat) : List Nat → AB → M AB
@@ -164,12 +171,7 @@ def classify (c : Ctx) (r : Routine) (seqlen : Array Int) (lmax : Option Sample)
     | some (lv, ls) =>
       if middle < aget seqlen i then do
         let x ← rd c i middle
-        let left := match r with
-          -- partition (after `fix: multisequence_partition breaks ties by sequence index`): (value, sequence) order
-          | .partition => lcomp c.lt (x, i) (lv, ls)
-          -- selection: plain `comp(first[middle], *lmax)`
-          | .selection => c.lt x lv
-        if left then
+        if leftTest c.lt r x i lv ls then
           classify c r seqlen lmax n is ⟨aset ab.a i (min (aget ab.a i + n + 1) (aget seqlen i)), ab.b⟩
         else
           classify c r seqlen lmax n is ⟨ab.a, aset ab.b i (aget ab.b i - (n + 1))⟩
